@@ -3,7 +3,7 @@ from .. import rotcheck
 
 LEVEL = "exploration"
 PROFILE = {"L_choices": [0, 0, 7, 64, 1000], "N_choices": [-1, 0, 2, 3, 5, 12], "option_choices": [2, 3, 6, 7],
-           "p_day": 0.15, "p_restart": 0.10, "p_foreign": 0.0, "p_lag": 0.06, "p_midnight": 0.05, "autoobs_choices": [1, 2]}
+           "p_day": 0.15, "p_restart": 0.10, "p_foreign": 0.0, "p_lag": 0.06, "p_midnight": 0.05, "autoobs_choices": [1, 2], "marathon_p": 0.012}
 
 
 def run(ctx):
